@@ -313,19 +313,19 @@ def worldInclude (st : St) (wn : Str) (withs : List (Str × Str)) (wd : World) :
     match st.types.worlds[o]? with
     | none => .error "dangling world"
     | some other =>
-      let imp := other.imports.foldlM (fun (wd : World) (nk : Str × ItemKind) =>
+      let imp : M World := other.imports.foldlM (fun (wd : World) (nk : Str × ItemKind) =>
         match replaceName withs wd.imports nk.1 with
-        | .error e => .error e
+        | .error e => (.error e : M World)
         | .ok name =>
           -- a used type of the included world stays a used type
           let uses :=
             match alGet other.uses nk.1 with
             | some used =>
               if (alGet wd.imports name).isNone && (alGet wd.uses name).isNone then
-                wd.uses ++ [(name, { interface := used.interface,
-                                     name := match used.name with
-                                       | some o => some o
-                                       | none => if name != nk.1 then some nk.1 else none })]
+                wd.uses ++ [(name, ({ interface := used.interface,
+                                      name := match used.name with
+                                        | some o => some o
+                                        | none => if name != nk.1 then some nk.1 else none } : UsedType))]
               else wd.uses
             | none => wd.uses
           .ok { wd with uses := uses,
@@ -335,7 +335,7 @@ def worldInclude (st : St) (wn : Str) (withs : List (Str × Str)) (wd : World) :
       | .ok wd =>
         other.exports.foldlM (fun (wd : World) (nk : Str × ItemKind) =>
           match replaceName withs wd.exports nk.1 with
-          | .error e => .error e
+          | .error e => (.error e : M World)
           | .ok name =>
             .ok { wd with exports := if (alGet wd.exports name).isSome then wd.exports else wd.exports ++ [(name, nk.2)] }) wd
   | some _ => .error "NotWorld"
@@ -396,7 +396,7 @@ def worldDecl (st : St) (id : Str) (items : List WItem) : M (St × Nat) :=
   match worldItems { st with scope := [] } items { id := some id, uses := [], imports := [], exports := [] } with
   | .error e => .error e
   | .ok (st, wd) =>
-    let inc := items.foldlM (fun (wd : World) (i : WItem) =>
+    let inc : M World := items.foldlM (fun (wd : World) (i : WItem) =>
       match i with
       | .include wn withs => worldInclude st wn withs wd
       | _ => .ok wd) wd
@@ -409,17 +409,17 @@ def worldDecl (st : St) (id : Str) (items : List WItem) : M (St × Nat) :=
 /-- the type statements of a document, in order (interfaces and worlds are written in the order
 the generator emits them: interfaces first) -/
 def elabPkg (p : Pkg) : M Types :=
-  let ifs := p.ifaces.foldlM (fun (st : St) (ni : Str × List Item) =>
+  let ifs : M St := p.ifaces.foldlM (fun (st : St) (ni : Str × List Item) =>
     match interfaceDecl st (some (idOf p ni.1)) ni.2 with
-    | .ok (st, i) => .ok { st with root := st.root ++ [(ni.1, .iface i)] }
+    | .ok (st, i) => (.ok { st with root := st.root ++ [(ni.1, .iface i)] } : M St)
     | .error e => .error e) ({} : St)
   match ifs with
   | .error e => .error e
   | .ok st =>
-    match p.worlds.foldlM (fun (st : St) (nw : Str × List WItem) =>
+    match (p.worlds.foldlM (fun (st : St) (nw : Str × List WItem) =>
       match worldDecl st (idOf p nw.1) nw.2 with
-      | .ok (st, w) => .ok { st with root := st.root ++ [(nw.1, .world w)] }
-      | .error e => .error e) st with
+      | .ok (st, w) => (.ok { st with root := st.root ++ [(nw.1, .world w)] } : M St)
+      | .error e => .error e) st : M St) with
     | .ok st => .ok st.types
     | .error e => .error e
 
